@@ -2,7 +2,10 @@
 from contracts import lemmas as L
 from contracts import sample as S
 
-UNITS = list(S.SAMPLE2D_UNITS)
+from contracts import output as O
+from contracts import release_init as RI
+
+UNITS = list(S.SAMPLE2D_UNITS) + [O.Write("sparse", lonlat=True)] + [u for u in RI.RELEASE_INIT_UNITS if "clean_position" in u.unit_name()]
 LEMMAS = [L.LerpBound(), L.MaskedIgnored(), L.MaskedTerm()]
 NATIVE = [dict(name="lon/lat round trip on synthetic conformal grids and subgrids; sample2D corpus", harness="lonlat_bounded", kind="bounded"), 
           dict(name="encoder validation: the interpreter in concrete mode vs the real numpy/numba functions", harness="validate_encoder", kind="validation", prepare="pyvc.validate:run_validation")]
